@@ -55,6 +55,7 @@ def run(ctx):
     cases += [sweep_case(ctx.rng) for _ in range(n // 3)]
     cases += [block_case(ctx.rng) for _ in range(n // 4)]
     cases += eigen_grid(ctx.tier)
+    cases += classical_control_grid()
     evaluate(ctx, cirq, mods, cases)
 
 
@@ -99,6 +100,37 @@ def classical_case(rng):
     c = circuits.Case([4 if w == qudit else 2 for w in range(n)], ops, ['E'] * len(ops))
     c.classical = True
     return c
+
+
+def classical_control_grid():
+    """ClassicalStateSimulator on controlled X / SWAP for EVERY set of allowed control tuples of two controls (sum of products and,
+    where it factorises, product of sums too) and a sample of three-control sets, from every basis state (fixed for every seed)."""
+    import itertools
+    out = []
+    two = list(itertools.product(range(2), repeat=2))
+    sets = [list(c) for r in range(1, 5) for c in itertools.combinations(two, r)]
+    three = list(itertools.product(range(2), repeat=3))
+    sets3 = [[three[0], three[7]], [three[1], three[2], three[4]], [three[3], three[5], three[6]], [three[7]], three[1:]]
+    for k, sset in enumerate(sets + sets3):
+        nc = len(sset[0])
+        for sub in (gates.G('XPow', dict(e=1.0, s=0.0), (2,)), gates.G('SwapPow', dict(e=1.0, s=0.0), (2, 2))):
+            if sub.fam == 'SwapPow' and k % 3:
+                continue
+            forms = [('sop', [list(t) for t in sset])]
+            per = [sorted({t[i] for t in sset}) for i in range(nc)]
+            if len(list(itertools.product(*per))) == len(sset):
+                forms.append(('pos', per))
+            for cv in forms:
+                g = gates.G('Ctrl', dict(sub=sub, cdims=[2] * nc, cv=cv, bools=False, as_sets=(cv[0] == 'pos')), (2,) * nc + sub.shape)
+                n = len(g.shape)
+                wires = list(range(n))
+                if k % 2:
+                    wires = wires[::-1]
+                case = circuits.Case([2] * n, [circuits.Op(g, wires)], ['E'])
+                case.classical = True
+                case.all_basis = True
+                out.append(case)
+    return out
 
 
 def sweep_case(rng):
@@ -311,24 +343,29 @@ def entry_points(ctx, cirq, mods, case):
         order = order_perm(rng, n)
         od = dims_of(order)
         # a basis state with the 4-level wire (if any) in |0>: it is prepared with X gates on the qubits
-        digits = [0 if d != 2 else rng.randrange(2) for d in od]
-        k = 0
-        for d, x in zip(od, digits):
-            k = k * d + x
+        import itertools
+        if getattr(case, 'all_basis', False):
+            all_digits = [list(t) for t in itertools.product(*[range(2) if d == 2 else [0] for d in od])]
+        else:
+            all_digits = [[0 if d != 2 else rng.randrange(2) for d in od]]
         cc = c + cirq.Circuit(cirq.measure(*ordered(order), key='m'))
         sim = cirq.ClassicalStateSimulator()
-        prep = cirq.Circuit([cirq.X(qs[w]) for pos, w in enumerate(order) if digits[pos]])
-        try:
-            res = sim.run(prep + cc, repetitions=1)
-        except ValueError as e:
-            if 'is not one of' in str(e) or 'Can not apply' in str(e) or 'not supported' in str(e).lower():
-                ctx.count('classical.run:refused', [case.key()], True, sample=dict(refused=str(e)[:120]))
-                return out          # an explicit refusal of an operation outside the classical vocabulary
-            raise
-        kout = 0
-        for d, x in zip(od, res.records['m'][0][0]):
-            kout = kout * d + int(x)
-        out.append(('classical.run', order, basis_vec(dim, k), kout, 'basis', TOL128))
+        for digits in all_digits:
+            k = 0
+            for d, x in zip(od, digits):
+                k = k * d + x
+            prep = cirq.Circuit([cirq.X(qs[w]) for pos, w in enumerate(order) if digits[pos]])
+            try:
+                res = sim.run(prep + cc, repetitions=1)
+            except ValueError as e:
+                if 'is not one of' in str(e) or 'Can not apply' in str(e) or 'not supported' in str(e).lower():
+                    ctx.count('classical.run:refused', [case.key()], True, sample=dict(refused=str(e)[:120]))
+                    return out          # an explicit refusal of an operation outside the classical vocabulary
+                raise
+            kout = 0
+            for d, x in zip(od, res.records['m'][0][0]):
+                kout = kout * d + int(x)
+            out.append((f'classical.run[basis {k}]' if len(all_digits) > 1 else 'classical.run', order, basis_vec(dim, k), kout, 'basis', TOL128))
         return out
 
     # 1. unitary (small systems)
